@@ -12,6 +12,7 @@ EXPLANATION = ("C17: (R1) the pairing rule (name of the current token, when its 
 NOT_DECIDED = "that the right declaration is found for all programs (heuristic by design)."
 
 RULES = {
+    "C17.RG": lambda ctx: __import__("rules.foundations", fromlist=["x"]).no_global_state(ctx, "C17.RG"),
     # resolution reads the minified text through SourceView::get_line: the line splitting and the freshness of views
     "C17.R5": lambda ctx: __import__("rules.svrules", fromlist=["x"]).fresh_views(ctx, "C17.R5"),
     "C17.R6": lambda ctx: __import__("rules.svrules", fromlist=["x"]).c15_r1_protocol(ctx, "C17.R6"),
